@@ -925,8 +925,9 @@ def g6(ctx, F, D):
                     a = {("var", chn): ("lit", in_check), ("var", "verify_king"): ("lit", True), ATT: ("lit", att),
                          ("call", "chess::Game::king_exists", (("var", "self"), ("field", ("var", "self"), "current_player"))): ("lit", True),
                          ("call", "chess::Game::king_exists", (("var", "self"), ("var", pl))): ("lit", True),
-                         ("call", "chess::position::Position::col", (S_,)): ("lit", dc), ("call", "chess::position::Position::row", (S_,)): ("lit", dr),
-                         ("call", "chess::position::Position::col", (KP,)): ("lit", 0), ("call", "chess::position::Position::row", (KP,)): ("lit", 0)}
+                         # (the king stands away from the corner: a sum in place of a difference must not pass for one)
+                         ("call", "chess::position::Position::col", (S_,)): ("lit", 4 + dc), ("call", "chess::position::Position::row", (S_,)): ("lit", 3 + dr),
+                         ("call", "chess::position::Position::col", (KP,)): ("lit", 4), ("call", "chess::position::Position::row", (KP,)): ("lit", 3)}
                     for ek in elem_keys:
                         a[ek] = mv
                     for vv in vvars:
@@ -1059,7 +1060,8 @@ def g9(ctx, F, D):
               found=bad[:4] or "%d (square, step) cases" % n_)
     # the other constructors the generators and the importer use: `new` accepts exactly the 64 squares, the unchecked step gives the
     # same square as the checked one wherever that is on the board
-    for name, label in (("new", "Position::new"), ("new_assert", "Position::new_assert"), ("add_unsafe", "Position::add_unsafe")):
+    for name, label in (("new", "Position::new"), ("new_assert", "Position::new_assert"), ("new_unsafe", "Position::new_unsafe"),
+                        ("new_unchecked", "Position::new_unchecked"), ("add_unsafe", "Position::add_unsafe")):
         if "chess::position::Position::" + name not in F.fns:
             continue
         pf = F.fn("chess::position::Position::" + name)
@@ -1072,7 +1074,7 @@ def g9(ctx, F, D):
                     want = ("ctor", "std::prelude::v1::Some", (("pos", r, c),)) if 0 <= r < 8 and 0 <= c < 8 else ("variant", "std::prelude::v1::None")
                     if v != want:
                         bad.append((args, fmtn(v, 60)))
-                elif name == "new_assert":
+                elif name in ("new_assert", "new_unsafe", "new_unchecked"):
                     r, c = args
                     if 0 <= r < 8 and 0 <= c < 8 and v != ("pos", r, c) and [x for x in hir.subterms(v) if x[:1] == ("pos",)] != [("pos", r, c)]:
                         bad.append((args, fmtn(v, 60)))       # (outside the board it panics: C15's concern)
@@ -1088,6 +1090,21 @@ def g9(ctx, F, D):
                   what="%s must name the square (row, col) / (row+drow, col+dcol) for every square of the board (a constructor that refuses a "
                        "rank or a file, or steps the wrong way, loses or misplaces moves)" % label,
                   expected="all 64 squares, nothing else", found=bad[:4] or "%d cases" % n_)
+    # every step of a step table and every generated move is looked at: the loops of the step generators and of the legality
+    # filter are never left early (a `break` or a `return` in place of a `continue` silently drops the rest)
+    for pth in (KINGF, KNIGHTF, PAWN, FILTER):
+        lf = F.fn(pth)
+        early = []
+        for n_, anc_ in hir.walk(lf["hir"]["body"]):
+            in_loop = any(a_.get("k") == "Loop" for a_ in anc_)
+            in_closure = any(a_.get("k") == "Closure" for a_ in anc_)
+            if n_.get("k") == "Break" and "Desugaring" not in str(n_.get("mac", "")) and in_loop:
+                early.append(("break", hir.line(n_)))
+            if n_.get("k") == "Ret" and in_loop and not in_closure and "Desugaring" not in str(n_.get("mac", "")):
+                early.append(("return", hir.line(n_)))
+        ctx.check("C01.G9", "loops-visit-every-element:%s" % pth.split("::")[-1], not early, fn=pth, file=lf["file"], line=early[0][1] if early else lf["span"][0],
+                  what="a loop over a step table / over the generated moves is left early: the remaining steps or moves are never looked at",
+                  expected="continue (never break / return) inside these loops", found=early)
     gm = F.fn(FILTER)
     genv = hir.Env(gm["hir"], F)
     gsym = hir.Sym(genv, F)
